@@ -38,16 +38,20 @@ static uint32_t one(uint32_t r, int begun, uint32_t prior) {
     return b.Ni;
 }
 
+/* clock values: ordinary; 1296 ms before the millisecond clock passes 2^32 (49.7 days of uptime); 2 s after the clock started */
+static const uint64_t ORG13[3] = {5000000ull, 4294966000ull, 2000ull};
+static int org13;
 static void check_choose(uint32_t ni) {
     band_state b; memset(&b, 0, sizeof b);
     b.Ni = ni; b.begun = true;
+    W.now_ms = ORG13[org13];
     uint64_t now = W.now_ms;
     uint64_t t = band_choose_hello_time(&b);
     evals++;
     unsigned __int128 num = (unsigned __int128)4 * ni * 20; uint64_t need = (uint64_t)((num + 29) / 30);
     if (t != b.hello_timeout_ts || t < now || t - now < need) {
-        cex_path(0xFFFFFFFFu, 2, ni);
-        vf_violation("band:hello-scheduled-too-soon", "Ni=%u: next Hello scheduled %lld ms from now, the load formula ceil(4*Ni*20/30) demands at least %llu ms", ni, (long long)(t - now), (unsigned long long)need);
+        cex_path(0xFFFFFFFFu, 2 + org13, ni);
+        vf_violation("band:hello-scheduled-too-soon", "Ni=%u at clock %llu ms: next Hello scheduled %lld ms from now, the load formula ceil(4*Ni*20/30) demands at least %llu ms", ni, (unsigned long long)now, (long long)(t - now), (unsigned long long)need);
     }
     vf_outcome(vf_hash64(&need, 8, 77));
 }
@@ -70,11 +74,11 @@ static const int T_LAST[] = {0, -1, -500, -999, -1000, -5000};                  
 #define NTICK (NT_NI * NT_R * 2 * NT_H * NT_B * NT_L)
 static uint64_t rel_ts(uint64_t now, int d) { return d == 0x7FFF ? now : (uint64_t)((int64_t)now + d); }
 static void tick_case(int code, int verbose) {
-    int c = code;
+    int c = code % NTICK, org = code / NTICK;
     int li = c % NT_L; c /= NT_L; int bi = c % NT_B; c /= NT_B; int hi = c % NT_H; c /= NT_H;
     int begun = c % 2; c /= 2; int ri = c % NT_R; c /= NT_R; int ni = c % NT_NI;
     static dw_iface D;
-    vf_world_reset(); W.now_ms = 5000000;
+    vf_world_reset(); W.now_ms = ORG13[org];
     dw_init(&D, 0);
     uint64_t now = W.now_ms;
     session_entry *e = session_table_add(D.sessionTable, vf_station[ST_M1], 0x1234, 1);
@@ -121,7 +125,7 @@ static void ps_apply(int ev) {
     if (nstaged < 4) return;
     nstaged = 0;
     uint32_t r = ((uint32_t)staged[0] << 16) | (uint32_t)staged[1];
-    if (staged[2] == 2) { printf("    band_choose_hello_time(Ni=%d)\n", staged[3]); check_choose((uint32_t)staged[3]); }
+    if (staged[2] >= 2) { org13 = staged[2] - 2; printf("    band_choose_hello_time(Ni=%d) at clock %llu ms\n", staged[3], (unsigned long long)ORG13[org13]); check_choose((uint32_t)staged[3]); org13 = 0; }
     else { uint32_t ni = one(r, staged[2], (uint32_t)staged[3]); printf("    band_update_stats(r=%u, begun=%d, Ni=%d) -> Ni=%u\n", r, staged[2], staged[3], ni); }
 }
 static void ps_root(void) { nstaged = 0; }
@@ -150,7 +154,7 @@ int main(int argc, char **argv) {
     vf_parse_args(argc, argv, "C13");
     vf_world_init(1500, 0, 0xA5);
     pseudo = (e1_cfg){ .nev = 1 << 16, .ev_name = ps_name, .apply = ps_apply, .root_setup = ps_root };
-    tickcfg = (e1_cfg){ .nev = NTICK, .ev_name = tk_name, .apply = tk_apply };
+    tickcfg = (e1_cfg){ .nev = 3 * NTICK, .ev_name = tk_name, .apply = tk_apply };
     if (A.replay) { A.verbose = 1; static char fb[1 << 16]; FILE *f = fopen(A.replay, "r"); size_t n = f ? fread(fb, 1, sizeof fb - 1, f) : 0; fb[n] = 0; if (f) fclose(f);
                     return e1_replay_file(strstr(fb, "tick-case") ? &tickcfg : &pseudo, A.replay); }
     double t0 = vf_now_s();
@@ -173,17 +177,17 @@ int main(int argc, char **argv) {
         R.exhaustive = 0; R.cap_hit = "quick tier: boundary-dense subset of r (thorough: all 2^32)";
     }
     if (A.part == 0) {
-        for (uint32_t ni = 0; ni <= 10000; ni++) check_choose(ni);
-        static const uint32_t more[] = {10001, 65535, 65536, 1u << 24, 0x7FFFFFFFu, 0xFFFFFFFFu};
-        for (unsigned i = 0; i < 6; i++) check_choose(more[i]);
-        vf_sample("band_choose_hello_time for every Ni in [0,10000] and 6 larger values: scheduled - now >= ceil(4*Ni*20/30)");
+        /* the count is always within [ALPHA, NMAX]: that is the domain in which the schedule is demanded */
+        for (org13 = 0; org13 < 3; org13++) for (uint32_t ni = ALPHA; ni <= NMAX; ni++) check_choose(ni);
+        org13 = 0;
+        vf_sample("band_choose_hello_time for every Ni in [45,10000] at clock {5000000, 2^32-1296, 2000} ms: scheduled - now >= ceil(4*Ni*20/30)");
     }
     if (A.part == 0) {
-        for (int code = 0; code < NTICK; code++) {
+        for (int code = 0; code < 3 * NTICK; code++) {
             static int p[1]; p[0] = code; e1_manual_path(&tickcfg, p, 1);
             tick_case(code, 0);
         }
-        vf_sample("%d ticks of the real automata_tick (Darwin wiring, enumeration Pausing, one incomplete session): prior Ni{45,7,2000,8820,10000} x r{0,1,2,14,15,16,100,65535,65536,2^32-1} x begun x Hello deadline{none,-1000,-1,now,+1,+500} x block deadline{-1,now,+1} x last transmit{never,-1,-500,-999,-1000,-5000} ms", NTICK);
+        vf_sample("%d ticks of the real automata_tick (Darwin wiring, enumeration Pausing, one incomplete session): prior Ni{45,7,2000,8820,10000} x r{0,1,2,14,15,16,100,65535,65536,2^32-1} x begun x Hello deadline{none,-1000,-1,now,+1,+500} x block deadline{-1,now,+1} x last transmit{never,-1,-500,-999,-1000,-5000} ms x clock {5000000, 2^32-1296, 2000} ms", 3 * NTICK);
     }
     R.evaluations = evals; R.wall_s = vf_now_s() - t0;
     vf_write_results();
